@@ -32,8 +32,8 @@ func runRev(tip bool, st uint32, ms []int16, x, y int64, us []int64, n int, gen 
 	var rst uint32
 	var rbits, recv1, recv2, rbits3 string
 	var eqRR, eqSelf, accx, accy bool
-	var ri16, fwd, rev []int64
-	var pi, pf, pr bool
+	var ri16, rri16, fwd, rev []int64
+	var pi, pri, pf, pr bool
 	acc := make([]bool, 0, len(us))
 	var resultMembers int
 	p := guard(func() {
@@ -49,6 +49,7 @@ func runRev(tip bool, st uint32, ms []int16, x, y int64, us []int64, n int, gen 
 			resultMembers = r.B1024.Len()
 			eqRR, eqSelf = b.B1024.Equal(r.B1024), b.B1024.Equal(b2.B1024)
 			pi = guard(func() { ri16 = i16to64(r.B1024.GetNAsI16(n)) })
+			pri = guard(func() { rri16 = i16to64(r.B1024.RGetNAsI16(n)) })
 			accx = r.SetU32(uint32(x)) == nil
 			recv2 = words(b.B1024)
 			accy = b.SetU32(uint32(y)) == nil
@@ -70,6 +71,7 @@ func runRev(tip bool, st uint32, ms []int16, x, y int64, us []int64, n int, gen 
 			resultMembers = r.B1024.Len()
 			eqRR, eqSelf = b.B1024.Equal(r.B1024), b.B1024.Equal(b2.B1024)
 			pi = guard(func() { ri16 = i16to64(r.B1024.GetNAsI16(n)) })
+			pri = guard(func() { rri16 = i16to64(r.B1024.RGetNAsI16(n)) })
 			accx = r.SetI64(x) == nil
 			recv2 = words(b.B1024)
 			accy = b.SetI64(y) == nil
@@ -85,9 +87,10 @@ func runRev(tip bool, st uint32, ms []int16, x, y int64, us []int64, n int, gen 
 		o = "RPanic"
 		desc["result"] = "panic"
 	} else {
-		o = fmt.Sprintf("(ROk %s %s %s %s %s %s %s %s %s %s %s %s %s)", z(int64(rst)), rbits, recv1, vh.CoqBool(eqRR), vh.CoqBool(eqSelf), iobs(ri16, pi),
+		o = fmt.Sprintf("(ROk %s %s %s %s %s %s %s %s %s %s %s %s %s %s)", z(int64(rst)), rbits, recv1, vh.CoqBool(eqRR), vh.CoqBool(eqSelf), iobs(ri16, pi), iobs(rri16, pri),
 			vh.CoqBool(accx), recv2, vh.CoqBool(accy), rbits3, bools(acc), iobs(fwd, pf), iobs(rev, pr))
 		desc["result_start"], desc["result_members"], desc["Equal(receiver,result)"], desc["x_accepted"], desc["y_accepted"], desc["accepted"] = rst, resultMembers, eqRR, accx, accy, acc
+		desc["result.RGetNAsI16"] = obsDesc(rri16, pri)
 		desc["result.GetNAsI16"], desc["result.GetN"], desc["result.RGetN"] = obsDesc(ri16, pi), obsDesc(fwd, pf), obsDesc(rev, pr)
 	}
 	cl := "rev/big"
